@@ -155,7 +155,7 @@ def hard(sc):
     where = sc['where']                  # 'job' | 'pool' | 'both'
     cbs = []
     pool = bp.Pool(sc['procs'], timeout=(lim if where in ('pool', 'both') else None),
-                   enable_timeouts=True,
+                   enable_timeouts=True, putlocks=bool(sc.get('putlocks')),
                    initializer=targets.become_group_leader if sc.get('leader') else None)
     kw = {}
     if where in ('job', 'both'):
@@ -175,6 +175,9 @@ def hard(sc):
     quick = pool.apply_async(targets.pid_task, (1,))      # inside its limit: must not be timed out
     res['next_ok'] = _outcome(quick, 10)[0] == 'ok'
     res['pool_size'] = len([w for w in pool._pool if w._is_alive()])
+    time.sleep(1.2)                       # one more supervision pass: the victim has been reaped
+    res['slots_free'] = pool._putlock._value
+    res['slots'] = pool._putlock._initial_value
     return res
 
 
